@@ -134,6 +134,7 @@ type spec struct {
 	Spin       bool   `json:"spin,omitempty"`     // conc: mutators and publishers do not pause
 	Rounds     int    `json:"rounds,omitempty"`   // conc: rounds per case; redial: generations
 	Restart    bool   `json:"restart,omitempty"`  // redial: generations may restart the publisher instead of dropping pipes
+	Reject     bool   `json:"reject,omitempty"`   // redial: the subscribers' own pipe hooks close some of their connections (Attaching/Attached)
 	Depth      int    `json:"depth,omitempty"`    // device: forwarders in the chain
 	DevFirst   bool   `json:"devfirst,omitempty"` // device: mangos.Device called before the sockets are connected
 	QLen       int    `json:"qlen,omitempty"`     // conc: ReadQLen of every context and WriteQLen of every PUB (0: default 128)
